@@ -31,7 +31,7 @@ RULE += (' '
          'Also matrices that need pivoting (tiny / zero diagonal entries; direct solvers only), integer right-hand sides and real right-hand sides for complex matrices (direct solvers only).')
 THOROUGH_ROUNDS = 5
 TRUSTED = ['scipy.linalg pinv / lu_factor / cho_factor, scipy.sparse.linalg.splu']
-PARTIAL = ['minimum-norm least squares of pinv and exactness of LU/Cholesky/splu: SciPy contracts checked by the oracle']
+PARTIAL = ['pinv: the theorem says Penrose equations => minimum-norm least squares; that the applied matrix satisfies the four equations is checked per input (SciPy numerics)', 'exactness of LU/Cholesky/splu: SciPy contracts checked by the oracle']
 
 
 def mats(rng):
